@@ -34,18 +34,19 @@ import (
 	"path/filepath"
 	"reflect"
 	"sort"
+	"strconv"
 	"strings"
 
 	"golang.org/x/tools/go/ast/astutil"
 )
 
 type knownFuncs struct {
-	Provenance string                          `json:"provenance"`
-	Functions  map[string][]string             `json:"functions"`
-	Types      map[string][]string             `json:"types"`
-	Prints     map[string]map[string]funcPrint `json:"fingerprints"` // per package: function key -> signature and body references
-	Fields     map[string]map[string][][2]string `json:"fields"`     // per package: struct type -> ordered (field, type)
-	Vars       map[string]map[string]string      `json:"vars"`       // per package: unexported package-level variable -> type
+	Provenance string                            `json:"provenance"`
+	Functions  map[string][]string               `json:"functions"`
+	Types      map[string][]string               `json:"types"`
+	Prints     map[string]map[string]funcPrint   `json:"fingerprints"` // per package: function key -> signature and body references
+	Fields     map[string]map[string][][2]string `json:"fields"`       // per package: struct type -> ordered (field, type)
+	Vars       map[string]map[string]string      `json:"vars"`         // per package: unexported package-level variable -> type
 }
 
 // loadKnownOracle returns the whole oracle (for rename recognition).
@@ -163,20 +164,31 @@ type pkgView struct {
 }
 
 type inliner struct {
-	pkg      *pkgView
-	known    map[string]bool // names of the pinned decomposition in this package
-	decls    map[*types.Func]*ast.FuncDecl
-	declFile map[*types.Func]*ast.File
-	eligible map[*types.Func]bool
-	seq      int
-	curSig   *types.Signature // signature of the function declaration being rewritten
-	curDecl  *ast.FuncDecl
-	scopes   []*types.Scope   // lexical scopes enclosing the node being rewritten (innermost last)
-	closures map[types.Object]*closureInfo
-	count    int
-	log      []string
-	fset     *token.FileSet
+	pkg          *pkgView
+	known        map[string]bool // names of the pinned decomposition in this package
+	decls        map[*types.Func]*ast.FuncDecl
+	declFile     map[*types.Func]*ast.File
+	eligible     map[*types.Func]bool
+	callFuns     map[*ast.Ident]bool
+	addedImports []addedImport
+	seq          int
+	curSig       *types.Signature // signature of the function declaration being rewritten
+	curDecl      *ast.FuncDecl
+	contLhs      []ast.Expr      // return-continuation inlining: variables the call's results are assigned to
+	contRet      *ast.ReturnStmt // ... and the return statement that follows the call
+	scopes       []*types.Scope  // lexical scopes enclosing the node being rewritten (innermost last)
+	dispatch     *dispatch       // result-dispatch threading requested for the next expansion (dispatch.go)
+	loops        []*loopCtx      // loops enclosing the statement being rewritten (innermost last)
+	pendingLabel string          // label of the labelled statement whose loop is entered next
+	closures     map[types.Object]*closureInfo
+	count        int
+	log          []string
+	fset         *token.FileSet
 }
+
+// normSeq numbers the temporaries of all normalisation passes (one sequence, so that the names a later
+// round introduces cannot collide with those of an earlier one in the same block).
+var normSeq int
 
 func funcKey(fn *types.Func) string {
 	sig := fn.Type().(*types.Signature)
@@ -241,7 +253,7 @@ func newInliner(pk *pkgView, known map[string]bool) *inliner {
 			}
 		}
 		sig := obj.Type().(*types.Signature)
-		if sig.Variadic() || sig.TypeParams() != nil || sig.RecvTypeParams() != nil {
+		if sig.TypeParams() != nil || sig.RecvTypeParams() != nil {
 			continue
 		}
 		bad := false
@@ -315,26 +327,25 @@ func bodyInlinable(body *ast.BlockStmt) (bad bool, nstmts int) {
 
 // isCallFun: identifier id is the function operand of some call expression.
 func (in *inliner) isCallFun(id *ast.Ident) bool {
-	found := false
-	for _, f := range in.pkg.Syntax {
-		if id.Pos() < f.Pos() || id.Pos() > f.End() {
-			continue
-		}
-		path, _ := astutil.PathEnclosingInterval(f, id.Pos(), id.End())
-		for i, n := range path {
-			if ce, ok := n.(*ast.CallExpr); ok && i > 0 {
-				fun := ce.Fun
-				if sel, ok := fun.(*ast.SelectorExpr); ok && sel.Sel == id {
-					// a go/defer of it is not inlinable but is still a call
-					found = true
+	// by node identity, not position: cloned statements keep the positions of their originals
+	if in.callFuns == nil {
+		in.callFuns = map[*ast.Ident]bool{}
+		for _, f := range in.pkg.Syntax {
+			ast.Inspect(f, func(n ast.Node) bool {
+				if ce, ok := n.(*ast.CallExpr); ok {
+					switch fun := ce.Fun.(type) {
+					case *ast.SelectorExpr:
+						// a go/defer of it is not inlinable but is still a call
+						in.callFuns[fun.Sel] = true
+					case *ast.Ident:
+						in.callFuns[fun] = true
+					}
 				}
-				if fid, ok := fun.(*ast.Ident); ok && fid == id {
-					found = true
-				}
-			}
+				return true
+			})
 		}
 	}
-	return found
+	return in.callFuns[id]
 }
 
 func (in *inliner) calleeOf(ce *ast.CallExpr) *types.Func {
@@ -429,7 +440,7 @@ func (in *inliner) freeNamesOK(body ast.Node, inner func(types.Object) bool, cal
 					same = true
 				}
 			}
-			if !same {
+			if !same && !in.addImport(callerFile, o) {
 				ok = false
 				return false
 			}
@@ -453,6 +464,81 @@ func (in *inliner) freeNamesOK(body ast.Node, inner func(types.Object) bool, cal
 		return ok
 	})
 	return ok
+}
+
+// addImport makes callerFile import o's package under o's name (a helper that moved to another file
+// of the package may use packages its caller's file does not import); refused when the name is taken
+// in the file or the package.  Imports that end up unused are dropped by dropUnusedImports.
+func (in *inliner) addImport(callerFile *ast.File, o *types.PkgName) bool {
+	name := o.Name()
+	if name == "_" || name == "." || in.pkg.Types.Scope().Lookup(name) != nil {
+		return false
+	}
+	for _, imp := range callerFile.Imports {
+		p := strings.Trim(imp.Path.Value, `"`)
+		n := ""
+		if imp.Name != nil {
+			n = imp.Name.Name
+		} else {
+			for _, ip := range in.pkg.Types.Imports() {
+				if ip.Path() == p {
+					n = ip.Name()
+				}
+			}
+		}
+		if n == name || n == "." {
+			return false
+		}
+	}
+	spec := &ast.ImportSpec{Path: &ast.BasicLit{Kind: token.STRING, Value: strconv.Quote(o.Imported().Path())}}
+	if o.Imported().Name() != name {
+		spec.Name = ast.NewIdent(name)
+	}
+	callerFile.Imports = append(callerFile.Imports, spec)
+	callerFile.Decls = append([]ast.Decl{&ast.GenDecl{Tok: token.IMPORT, Specs: []ast.Spec{spec}}}, callerFile.Decls...)
+	in.addedImports = append(in.addedImports, addedImport{callerFile, spec, name})
+	return true
+}
+
+type addedImport struct {
+	file *ast.File
+	spec *ast.ImportSpec
+	name string
+}
+
+// dropUnusedImports removes the imports added by addImport that no qualified identifier uses
+// (the expansion they were added for was given up for another reason).
+func (in *inliner) dropUnusedImports() {
+	for _, a := range in.addedImports {
+		used := false
+		ast.Inspect(a.file, func(n ast.Node) bool {
+			if se, ok := n.(*ast.SelectorExpr); ok {
+				if id, ok := se.X.(*ast.Ident); ok && id.Name == a.name {
+					used = true
+				}
+			}
+			return !used
+		})
+		if used {
+			continue
+		}
+		var imps []*ast.ImportSpec
+		for _, s := range a.file.Imports {
+			if s != a.spec {
+				imps = append(imps, s)
+			}
+		}
+		a.file.Imports = imps
+		var decls []ast.Decl
+		for _, d := range a.file.Decls {
+			if gd, ok := d.(*ast.GenDecl); ok && gd.Tok == token.IMPORT && len(gd.Specs) == 1 && gd.Specs[0] == ast.Spec(a.spec) {
+				continue
+			}
+			decls = append(decls, d)
+		}
+		a.file.Decls = decls
+	}
+	in.addedImports = nil
 }
 
 // innerOfFunc: objects local to a declared function (anything that is neither
@@ -607,7 +693,35 @@ func (in *inliner) substituteCloneNode(e ast.Node, sub map[types.Object]ast.Expr
 		return nil
 	}
 	defer func() { cloneIdentHook = nil }()
-	return cloneAST(e)
+	return simplifyAddrSelections(cloneAST(e))
+}
+
+// simplifyAddrSelections rewrites (&x).f to x.f and *(&x) to x for an identifier x (the forms a
+// parameter substituted by &x leaves behind); x is a variable, so both pairs are the same operand.
+func simplifyAddrSelections(n ast.Node) ast.Node {
+	addrOfIdent := func(e ast.Expr) *ast.Ident {
+		u, ok := stripParens(e).(*ast.UnaryExpr)
+		if !ok || u.Op != token.AND {
+			return nil
+		}
+		id, _ := stripParens(u.X).(*ast.Ident)
+		return id
+	}
+	return astutil.Apply(n, nil, func(c *astutil.Cursor) bool {
+		switch x := c.Node().(type) {
+		case *ast.SelectorExpr:
+			if id := addrOfIdent(x.X); id != nil {
+				x.X = id
+			}
+		case *ast.StarExpr:
+			if id := addrOfIdent(x.X); id != nil {
+				if _, isExpr := c.Parent().(ast.Expr); isExpr || c.Name() == "Lhs" || c.Name() == "Rhs" || c.Name() == "Args" || c.Name() == "Results" {
+					c.Replace(id)
+				}
+			}
+		}
+		return true
+	})
 }
 
 // tryExprInline: returns the replacement expression for call ce, or nil.
@@ -653,6 +767,9 @@ func (in *inliner) tryExprInline(ce *ast.CallExpr, file *ast.File) ast.Expr {
 				sub[obj] = ra
 			}
 		}
+	}
+	if sig.Variadic() {
+		return nil // statement mode packs the extra arguments into a slice
 	}
 	i := 0
 	for _, fld := range fd.Type.Params.List {
@@ -779,6 +896,34 @@ func rootIdent(e ast.Expr) *ast.Ident {
 func (in *inliner) readOnlyIn(obj types.Object, n ast.Node, noClosure bool) bool {
 	info := in.pkg.TypesInfo
 	is := func(e ast.Expr) bool {
+		// the variable whose own storage e designates: a selection or dereference through a
+		// pointer designates the pointee, which is not part of the variable
+		for {
+			switch x := e.(type) {
+			case *ast.ParenExpr:
+				e = x.X
+				continue
+			case *ast.StarExpr:
+				return false
+			case *ast.SelectorExpr:
+				if t := info.TypeOf(x.X); t != nil {
+					if _, isPtr := t.Underlying().(*types.Pointer); isPtr {
+						return false
+					}
+				}
+				e = x.X
+				continue
+			case *ast.IndexExpr:
+				if t := info.TypeOf(x.X); t != nil {
+					if _, isPtr := t.Underlying().(*types.Pointer); isPtr {
+						return false
+					}
+				}
+				e = x.X
+				continue
+			}
+			break
+		}
 		id := rootIdent(e)
 		return id != nil && (info.Uses[id] == obj || info.Defs[id] == obj)
 	}
@@ -866,6 +1011,7 @@ func (in *inliner) declaresName(n ast.Node, name string) bool {
 //   - the parameter is a struct or array passed by value, the argument is a local
 //     variable that is only ever read in the calling function, and the callee only
 //     reads the parameter (so the copy is unobservable).
+//
 // In every case the parameter is never assigned or address-taken in the body,
 // and the body declares nothing with the argument's name.
 func (in *inliner) paramSubstitutable(param types.Object, arg ast.Expr, body *ast.BlockStmt) bool {
@@ -892,6 +1038,18 @@ func (in *inliner) paramSubstitutable(param types.Object, arg ast.Expr, body *as
 		}
 	}
 	if kind == "" || in.declaresName(body, id.Name) {
+		return false
+	}
+	// statements placed in the body earlier in this round have no type information yet: a mention of
+	// the parameter among them could not be substituted
+	unresolved := false
+	ast.Inspect(body, func(m ast.Node) bool {
+		if x, ok := m.(*ast.Ident); ok && x.Name == param.Name() && info.Uses[x] == nil && info.Defs[x] == nil {
+			unresolved = true
+		}
+		return !unresolved
+	})
+	if unresolved {
 		return false
 	}
 	if !in.readOnlyIn(param, body, false) {
@@ -967,9 +1125,13 @@ func (in *inliner) expandCallMode(ce *ast.CallExpr, file *ast.File, depth int, s
 		return nil, nil, false
 	}
 	if os.Getenv("VERIF_DEBUG_NORM") != "" {
-		defer func() { fmt.Fprintf(os.Stderr, "normalise: expand %s at %s: ok=%v\n", tg.key, in.fset.Position(ce.Pos()), ok) }()
+		defer func() {
+			fmt.Fprintf(os.Stderr, "normalise: expand %s at %s: ok=%v\n", tg.key, in.fset.Position(ce.Pos()), ok)
+		}()
 	}
 	sig := tg.sig
+	disp := in.dispatch
+	in.dispatch = nil
 	inner := in.innerOfFunc()
 	if tg.clo != nil {
 		litScope := in.pkg.TypesInfo.Scopes[tg.clo.lit.Type]
@@ -1046,15 +1208,31 @@ func (in *inliner) expandCallMode(ce *ast.CallExpr, file *ast.File, depth int, s
 		nm := tg.recv
 		// ra already has the receiver's type
 		name := ""
+		substituted := false
 		if nm != nil && nm.Name != "_" {
 			name = nm.Name
+			if u, isAddr := stripParens(ra).(*ast.UnaryExpr); isAddr && u.Op == token.AND {
+				// x.m() with a pointer receiver and a variable x: the receiver is &x (judged on the
+				// call's own identifier, which the type information knows)
+				if fsel, ok := ce.Fun.(*ast.SelectorExpr); ok {
+					if oid, ok := stripParens(fsel.X).(*ast.Ident); ok {
+						orig := &ast.UnaryExpr{Op: token.AND, X: oid}
+						if pobj := in.pkg.TypesInfo.Defs[nm]; pobj != nil && in.paramSubstitutable(pobj, orig, tg.body) {
+							sub[pobj] = orig
+							substituted = true
+						}
+					}
+				}
+			}
 		} else {
 			fresh++
 			name = fmt.Sprintf("%s_p%d", tag, fresh)
 		}
-		lhs = append(lhs, ident(name))
-		rhs = append(rhs, ra)
-		used = append(used, ident(name))
+		if !substituted {
+			lhs = append(lhs, ident(name))
+			rhs = append(rhs, ra)
+			used = append(used, ident(name))
+		}
 	}
 	i := 0
 	for _, fld := range tg.ftype.Params.List {
@@ -1063,6 +1241,37 @@ func (in *inliner) expandCallMode(ce *ast.CallExpr, file *ast.File, depth int, s
 			names = []*ast.Ident{nil}
 		}
 		for _, nm := range names {
+			if sig.Variadic() && i == sig.Params().Len()-1 && ce.Ellipsis == token.NoPos {
+				// f(a, b, c) for f(xs ...T): xs is the slice []T{a, b, c} (nil when nothing is passed)
+				pt := sig.Params().At(i).Type()
+				te, tok := in.typeExpr(pt, file)
+				if !tok {
+					return nil, nil, false
+				}
+				var packed ast.Expr = &ast.CallExpr{Fun: &ast.ParenExpr{X: te}, Args: []ast.Expr{ident("nil")}}
+				if len(ce.Args) > i {
+					lit := &ast.CompositeLit{Type: te}
+					for _, a := range ce.Args[i:] {
+						lit.Elts = append(lit.Elts, cloneAST(a).(ast.Expr))
+					}
+					packed = lit
+				}
+				name := ""
+				if nm != nil && nm.Name != "_" {
+					name = nm.Name
+				} else {
+					fresh++
+					name = fmt.Sprintf("%s_p%d", tag, fresh)
+				}
+				lhs = append(lhs, ident(name))
+				rhs = append(rhs, packed)
+				used = append(used, ident(name))
+				i = len(ce.Args)
+				if i < sig.Params().Len()-1 {
+					return nil, nil, false
+				}
+				continue
+			}
 			if i >= len(ce.Args) {
 				return nil, nil, false
 			}
@@ -1111,6 +1320,12 @@ func (in *inliner) expandCallMode(ce *ast.CallExpr, file *ast.File, depth int, s
 	body := in.substituteCloneNode(tg.body, sub).(*ast.BlockStmt)
 	label := tag + "_L"
 	okBody := true
+	if disp != nil && (tail || sig.Results().Len() != 1) {
+		disp = nil
+	}
+	if disp != nil {
+		in.prepareDispatch(disp, tg, ce)
+	}
 	var rewriteList func(list []ast.Stmt) []ast.Stmt
 	var rewriteStmt func(s ast.Stmt) []ast.Stmt
 	rewriteStmt = func(s ast.Stmt) []ast.Stmt {
@@ -1127,7 +1342,51 @@ func (in *inliner) expandCallMode(ce *ast.CallExpr, file *ast.File, depth int, s
 						x.Results = append(x.Results, ident(named[k]))
 					}
 				}
+				if in.contRet != nil {
+					// `v, err := f(...); return g(v), err`: every return of f continues with its own copy
+					// of the caller's return statement, so the exits stay distinct
+					var lhs, used, blanks []ast.Expr
+					anyNew := false
+					for _, l := range in.contLhs {
+						id := l.(*ast.Ident)
+						lhs = append(lhs, ident(id.Name))
+						if id.Name != "_" {
+							anyNew = true
+							used = append(used, ident(id.Name))
+							blanks = append(blanks, ident("_"))
+						}
+					}
+					tok := token.DEFINE
+					if !anyNew {
+						tok = token.ASSIGN
+					}
+					rhs := x.Results
+					if len(rhs) == sig.Results().Len() {
+						// give every value the callee's declared result type (nil and untyped constants need it)
+						var typed []ast.Expr
+						for k, e := range rhs {
+							te, tok := in.typeExpr(sig.Results().At(k).Type(), file)
+							if !tok {
+								okBody = false
+								return nil
+							}
+							typed = append(typed, &ast.CallExpr{Fun: &ast.ParenExpr{X: te}, Args: []ast.Expr{e}})
+						}
+						rhs = typed
+					}
+					blk := []ast.Stmt{&ast.AssignStmt{Lhs: lhs, Tok: tok, Rhs: rhs}}
+					if anyNew {
+						blk = append(blk, &ast.AssignStmt{Lhs: blanks, Tok: token.ASSIGN, Rhs: used})
+					}
+					blk = append(blk, cloneAST(in.contRet).(*ast.ReturnStmt))
+					return []ast.Stmt{&ast.BlockStmt{List: blk}}
+				}
 				return []ast.Stmt{x}
+			}
+			if disp != nil {
+				if moved := in.dispatchReturn(disp, x); moved != nil {
+					return moved
+				}
 			}
 			switch {
 			case len(results) == 0:
@@ -1195,9 +1454,9 @@ func (in *inliner) expandCallMode(ce *ast.CallExpr, file *ast.File, depth int, s
 		innerStmts = append(innerStmts, body.List...)
 		stmts = append(stmts, &ast.BlockStmt{List: innerStmts})
 		in.count++
-	if tg.clo != nil {
-		tg.clo.remaining--
-	}
+		if tg.clo != nil {
+			tg.clo.remaining--
+		}
 		in.log = append(in.log, fmt.Sprintf("tail-inlined %s at %s", tg.key, in.fset.Position(ce.Pos())))
 		return stmts, results, true
 	}
@@ -1397,10 +1656,103 @@ func sameExpr(in *inliner, a, b ast.Expr) bool {
 func (in *inliner) processList(list []ast.Stmt, file *ast.File, depth int) []ast.Stmt {
 	list = in.rotateReadAhead(list, file)
 	var out []ast.Stmt
-	for _, s := range list {
+	for i := 0; i < len(list); i++ {
+		s := list[i]
+		if i+1 < len(list) {
+			if st, ok := in.tryReturnContinuation(s, list[i+1], file, depth); ok {
+				out = append(out, st...)
+				i++
+				continue
+			}
+			if st, ok := in.tryNilDispatch(s, list[i+1], file, depth); ok {
+				out = append(out, st...)
+				i++
+				continue
+			}
+		}
 		out = append(out, in.processStmt(s, file, depth)...)
 	}
 	return out
+}
+
+// tryReturnContinuation: `a, b := f(x)` followed directly by `return <pure expressions over a, b>`.
+func (in *inliner) tryReturnContinuation(s, next ast.Stmt, file *ast.File, depth int) ([]ast.Stmt, bool) {
+	as, ok := s.(*ast.AssignStmt)
+	ret, ok2 := next.(*ast.ReturnStmt)
+	if !ok || !ok2 || as.Tok != token.DEFINE || len(as.Rhs) != 1 || len(ret.Results) == 0 {
+		return nil, false
+	}
+	ce := asCall(as.Rhs[0])
+	if ce == nil {
+		return nil, false
+	}
+	tg := in.targetOf(ce)
+	if tg == nil || tg.sig.Results().Len() != len(as.Lhs) || tg.sig.Results().Len() == 0 {
+		return nil, false
+	}
+	defined := map[types.Object]bool{}
+	for _, l := range as.Lhs {
+		id, ok := l.(*ast.Ident)
+		if !ok {
+			return nil, false
+		}
+		if o := in.pkg.TypesInfo.Defs[id]; o != nil {
+			defined[o] = true
+		} else if id.Name != "_" {
+			return nil, false // redeclaration of an existing variable: keep the ordinary path
+		}
+	}
+	// the return statement is free of calls (conversions excepted) and receives, and the caller's
+	// variables it mentions cannot be captured by declarations of the callee
+	pure := true
+	ast.Inspect(ret, func(n ast.Node) bool {
+		switch x := n.(type) {
+		case *ast.CallExpr:
+			if tv, ok := in.pkg.TypesInfo.Types[x.Fun]; !ok || !tv.IsType() {
+				pure = false
+			}
+		case *ast.UnaryExpr:
+			if x.Op == token.ARROW {
+				pure = false
+			}
+		case *ast.FuncLit:
+			pure = false
+		case *ast.Ident:
+			if o := in.pkg.TypesInfo.Uses[x]; o != nil && !defined[o] {
+				if v, isVar := o.(*types.Var); isVar && !v.IsField() && o.Parent() != in.pkg.Types.Scope() && in.declaresName(tg.body, x.Name) {
+					pure = false
+				}
+			}
+		}
+		return pure
+	})
+	if !pure {
+		return nil, false
+	}
+	// the callee's parameters must not shadow what the return statement reads either
+	for _, fld := range tg.ftype.Params.List {
+		for _, nm := range fld.Names {
+			clash := false
+			ast.Inspect(ret, func(n ast.Node) bool {
+				if id, ok := n.(*ast.Ident); ok && id.Name == nm.Name {
+					if o := in.pkg.TypesInfo.Uses[id]; o != nil && !defined[o] {
+						clash = true
+					}
+				}
+				return !clash
+			})
+			if clash {
+				return nil, false
+			}
+		}
+	}
+	in.contLhs, in.contRet = as.Lhs, ret
+	st, _, ok3 := in.expandCallMode(ce, file, depth, map[*types.Func]bool{}, true)
+	in.contLhs, in.contRet = nil, nil
+	if !ok3 {
+		return nil, false
+	}
+	return st, true
 }
 
 func asCall(e ast.Expr) *ast.CallExpr {
@@ -1442,6 +1794,12 @@ func (in *inliner) processStmt(s ast.Stmt, file *ast.File, depth int) []ast.Stmt
 				blk := &ast.BlockStmt{List: []ast.Stmt{as, s}}
 				return in.processStmt(blk, file, depth)
 			}
+		}
+	}
+	switch x := s.(type) {
+	case *ast.SwitchStmt:
+		if st, ok := in.dispatchSwitch(x, file, depth, stack); ok {
+			return st
 		}
 	}
 	switch x := s.(type) {
@@ -1494,6 +1852,9 @@ func (in *inliner) processStmt(s ast.Stmt, file *ast.File, depth int) []ast.Stmt
 				cond, neg = u.X, true
 			}
 			if ce := asCall(cond); ce != nil {
+				if st, ok := in.dispatchIf(x, ce, neg, file, depth, stack); ok {
+					return st
+				}
 				if st, res, ok := in.expandCall(ce, file, depth, stack); ok && len(res) == 1 {
 					var c ast.Expr = ident(res[0])
 					if neg {
@@ -1533,9 +1894,19 @@ func (in *inliner) processStmt(s ast.Stmt, file *ast.File, depth int) []ast.Stmt
 			}
 		}
 	case *ast.ForStmt:
+		lc := in.pushLoop()
 		body(x.Body)
+		in.popLoop()
+		if lc.used && lc.generated {
+			return append(pre, &ast.LabeledStmt{Label: ident(lc.label), Stmt: x})
+		}
 	case *ast.RangeStmt:
+		lc := in.pushLoop()
 		body(x.Body)
+		in.popLoop()
+		if lc.used && lc.generated {
+			return append(pre, &ast.LabeledStmt{Label: ident(lc.label), Stmt: x})
+		}
 	case *ast.SwitchStmt:
 		body(x.Body)
 	case *ast.TypeSwitchStmt:
@@ -1547,7 +1918,12 @@ func (in *inliner) processStmt(s ast.Stmt, file *ast.File, depth int) []ast.Stmt
 	case *ast.CommClause:
 		x.Body = in.processList(x.Body, file, depth)
 	case *ast.LabeledStmt:
+		switch x.Stmt.(type) {
+		case *ast.ForStmt, *ast.RangeStmt:
+			in.pendingLabel = x.Label.Name
+		}
 		r := in.processStmt(x.Stmt, file, depth)
+		in.pendingLabel = ""
 		if len(r) == 1 {
 			x.Stmt = r[0]
 		} else {
@@ -1565,7 +1941,36 @@ func (in *inliner) processStmt(s ast.Stmt, file *ast.File, depth int) []ast.Stmt
 // stay behind are plain reads of variables the hoisted call does not receive
 // a pointer to.
 func (in *inliner) hoistStmt(s ast.Stmt, file *ast.File, depth int) []ast.Stmt {
-	h := &hoister{in: in, file: file, depth: depth, reads: map[string]bool{}}
+	h := &hoister{in: in, file: file, depth: depth, reads: map[string]bool{}, through: map[string]bool{}}
+	// is there a call in the statement's own expressions that can be expanded?
+	scan := func(e ast.Expr) {
+		if e == nil {
+			return
+		}
+		ast.Inspect(e, func(n ast.Node) bool {
+			switch y := n.(type) {
+			case *ast.FuncLit:
+				return false
+			case *ast.CallExpr:
+				if in.targetOf(y) != nil {
+					h.wantTemps = true
+				}
+			}
+			return !h.wantTemps
+		})
+	}
+	switch x := s.(type) {
+	case *ast.ExprStmt:
+		scan(x.X)
+	case *ast.AssignStmt:
+		for _, e := range x.Rhs {
+			scan(e)
+		}
+	case *ast.ReturnStmt:
+		for _, e := range x.Results {
+			scan(e)
+		}
+	}
 	switch x := s.(type) {
 	case *ast.ExprStmt:
 		h.walk(&x.X)
@@ -1622,6 +2027,147 @@ type hoister struct {
 	depth int
 	pre   []ast.Stmt
 	reads map[string]bool // identifiers read by operands that stay in the statement
+	// through: those of them that are read through a selection, index or dereference (a callee handed
+	// the same pointer, slice or map can change what such an operand yields; it cannot change the
+	// variable itself)
+	through map[string]bool
+	// wantTemps: the statement contains an expandable call, so calls evaluated before it that cannot be
+	// expanded are moved into temporaries (in order) instead of stopping the hoisting
+	wantTemps bool
+}
+
+// tempHoist moves the call x (a statically resolved function or method with one result) into a
+// temporary declared in front of the statement.  Operands evaluated earlier that stay behind are read
+// later than before, so they must be local variables the call cannot reach: not package-level, never
+// address-taken or captured, and not handed to the call through a pointer-like argument.
+func (h *hoister) tempHoist(slot *ast.Expr, x *ast.CallExpr, snap, snapThrough map[string]bool) bool {
+	info := h.in.pkg.TypesInfo
+	var fid *ast.Ident
+	switch f := x.Fun.(type) {
+	case *ast.Ident:
+		fid = f
+	case *ast.SelectorExpr:
+		fid = f.Sel
+	}
+	if fid == nil {
+		return false
+	}
+	fn, ok := info.Uses[fid].(*types.Func)
+	if !ok {
+		return false
+	}
+	sig := fn.Type().(*types.Signature)
+	if sig.Results().Len() != 1 || h.in.curDecl == nil {
+		return false
+	}
+	if tv, ok := info.Types[x]; !ok || tv.Type == nil {
+		return false
+	}
+	if h.in.curScope() == nil {
+		return false
+	}
+	for name := range snap {
+		_, obj := h.in.curScope().LookupParent(name, token.NoPos)
+		v, isVar := obj.(*types.Var)
+		if !isVar {
+			if _, isConst := obj.(*types.Const); isConst || obj == nil {
+				continue
+			}
+			if _, isPkg := obj.(*types.PkgName); isPkg {
+				continue
+			}
+			if _, isFn := obj.(*types.Func); isFn {
+				continue
+			}
+			if _, isNil := obj.(*types.Nil); isNil {
+				continue
+			}
+			if _, isT := obj.(*types.TypeName); isT {
+				continue
+			}
+			return false
+		}
+		if v.Parent() == h.in.pkg.Types.Scope() || v.IsField() {
+			return false
+		}
+		if !h.in.neverAddressedOrCaptured(v, h.in.curDecl) {
+			return false
+		}
+	}
+	conflict := false
+	for _, a := range x.Args {
+		switch typeUnder(info.TypeOf(a)).(type) {
+		case *types.Pointer, *types.Slice, *types.Map, *types.Chan, *types.Signature, *types.Interface:
+			if reachesReads(a, snap, snapThrough) {
+				conflict = true
+			}
+		}
+	}
+	if sel, ok := x.Fun.(*ast.SelectorExpr); ok && sig.Recv() != nil {
+		if reachesReads(sel.X, snap, snapThrough) {
+			conflict = true
+		}
+	}
+	if conflict {
+		return false
+	}
+	h.in.seq++
+	name := fmt.Sprintf("__h%d", h.in.seq)
+	h.pre = append(h.pre, &ast.AssignStmt{Lhs: []ast.Expr{ident(name)}, Tok: token.DEFINE, Rhs: []ast.Expr{x}})
+	*slot = ident(name)
+	h.reads, h.through = snap, snapThrough
+	return true
+}
+
+// neverAddressedOrCaptured: the local variable is never the operand of &, never sliced as an array,
+// never the receiver of a pointer method and never mentioned in a function literal.
+func (in *inliner) neverAddressedOrCaptured(obj types.Object, fd *ast.FuncDecl) bool {
+	info := in.pkg.TypesInfo
+	good := true
+	lit := 0
+	var stack []ast.Node
+	ast.Inspect(fd.Body, func(m ast.Node) bool {
+		if m == nil {
+			if _, ok := stack[len(stack)-1].(*ast.FuncLit); ok {
+				lit--
+			}
+			stack = stack[:len(stack)-1]
+			return true
+		}
+		stack = append(stack, m)
+		switch x := m.(type) {
+		case *ast.FuncLit:
+			lit++
+		case *ast.Ident:
+			if lit > 0 && info.Uses[x] == obj {
+				good = false
+			}
+		case *ast.UnaryExpr:
+			if id := rootIdent(x.X); x.Op == token.AND && id != nil && info.Uses[id] == obj {
+				good = false
+			}
+		case *ast.SliceExpr:
+			if id := rootIdent(x.X); id != nil && info.Uses[id] == obj {
+				if t := info.TypeOf(x.X); t != nil {
+					if _, isArr := t.Underlying().(*types.Array); isArr {
+						good = false
+					}
+				}
+			}
+		case *ast.SelectorExpr:
+			if sel := info.Selections[x]; sel != nil && sel.Kind() == types.MethodVal {
+				if id := rootIdent(x.X); id != nil && info.Uses[id] == obj {
+					if _, ptrRecv := sel.Obj().Type().(*types.Signature).Recv().Type().(*types.Pointer); ptrRecv {
+						if _, isPtr := info.TypeOf(x.X).Underlying().(*types.Pointer); !isPtr {
+							good = false
+						}
+					}
+				}
+			}
+		}
+		return true
+	})
+	return good
 }
 
 // pureReads: e consists of identifiers, selectors, indexing, dereferences and
@@ -1641,6 +2187,7 @@ func (h *hoister) pureReads(e ast.Expr) bool {
 			ast.Inspect(x.X, func(m ast.Node) bool {
 				if id, isID := m.(*ast.Ident); isID {
 					h.reads[id.Name] = true
+					h.through[id.Name] = true
 				}
 				return true
 			})
@@ -1714,8 +2261,10 @@ func (h *hoister) walk(slot *ast.Expr) bool {
 	case *ast.ParenExpr:
 		return h.walk(&x.X)
 	case *ast.SelectorExpr:
+		h.markThrough(x.X)
 		return h.walk(&x.X)
 	case *ast.StarExpr:
+		h.markThrough(x.X)
 		return h.walk(&x.X)
 	case *ast.TypeAssertExpr:
 		return h.walk(&x.X)
@@ -1736,8 +2285,10 @@ func (h *hoister) walk(slot *ast.Expr) bool {
 		}
 		return h.walk(&x.X) && h.walk(&x.Y)
 	case *ast.IndexExpr:
+		h.markThrough(x.X)
 		return h.walk(&x.X) && h.walk(&x.Index)
 	case *ast.SliceExpr:
+		h.markThrough(x.X)
 		return h.walk(&x.X) && h.walk(&x.Low) && h.walk(&x.High) && h.walk(&x.Max)
 	case *ast.KeyValueExpr:
 		return h.walk(&x.Value)
@@ -1771,6 +2322,10 @@ func (h *hoister) walk(slot *ast.Expr) bool {
 		for k := range h.reads {
 			snap[k] = true
 		}
+		snapThrough := map[string]bool{}
+		for k := range h.through {
+			snapThrough[k] = true
+		}
 		// operands of the call: receiver, then arguments
 		if sel, ok := x.Fun.(*ast.SelectorExpr); ok {
 			if !h.walk(&sel.X) {
@@ -1785,18 +2340,23 @@ func (h *hoister) walk(slot *ast.Expr) bool {
 			}
 		}
 		tg := h.in.targetOf(x)
+		if tg == nil && h.wantTemps {
+			// a call that cannot be expanded but precedes one that can: it moves into a temporary,
+			// so that the order of the calls is kept
+			if h.tempHoist(slot, x, snap, snapThrough) {
+				return true
+			}
+			return false
+		}
 		if tg == nil || tg.sig.Results().Len() != 1 {
 			return false
 		}
 		// the call must not be able to change what earlier operands (left behind) read
 		conflict := false
 		mention := func(e ast.Expr) {
-			ast.Inspect(e, func(n ast.Node) bool {
-				if id, ok := n.(*ast.Ident); ok && snap[id.Name] {
-					conflict = true
-				}
-				return true
-			})
+			if reachesReads(e, snap, snapThrough) {
+				conflict = true
+			}
 		}
 		if sel, ok := x.Fun.(*ast.SelectorExpr); ok && tg.fn != nil && tg.sig.Recv() != nil {
 			mention(sel.X)
@@ -1810,7 +2370,13 @@ func (h *hoister) walk(slot *ast.Expr) bool {
 			}
 		}
 		if tg.clo != nil && len(snap) > 0 {
-			conflict = true // a closure may change any captured variable
+			// a closure may change any variable it captures
+			ast.Inspect(tg.clo.lit.Body, func(n ast.Node) bool {
+				if id, ok := n.(*ast.Ident); ok && snap[id.Name] {
+					conflict = true
+				}
+				return !conflict
+			})
 		}
 		if conflict {
 			return false
@@ -1821,10 +2387,40 @@ func (h *hoister) walk(slot *ast.Expr) bool {
 		}
 		h.pre = append(h.pre, st...)
 		*slot = ident(res[0])
-		h.reads = snap
+		h.reads, h.through = snap, snapThrough
 		return true
 	}
 	return false
+}
+
+// markThrough records that the variable at the root of e is read through a selection, index or dereference.
+func (h *hoister) markThrough(e ast.Expr) {
+	if id := rootIdent(e); id != nil {
+		h.through[id.Name] = true
+	}
+}
+
+// reachesReads: handing the pointer-like operand e to a call lets the callee change what an operand
+// left behind yields: e mentions a variable that is read through a selection/index/dereference, or
+// takes the address of a variable that is read at all.
+func reachesReads(e ast.Expr, reads, through map[string]bool) bool {
+	hit := false
+	ast.Inspect(e, func(n ast.Node) bool {
+		switch x := n.(type) {
+		case *ast.Ident:
+			if through[x.Name] {
+				hit = true
+			}
+		case *ast.UnaryExpr:
+			if x.Op == token.AND {
+				if id := rootIdent(x.X); id != nil && reads[id.Name] {
+					hit = true
+				}
+			}
+		}
+		return !hit
+	})
+	return hit
 }
 
 func typeUnder(t types.Type) types.Type {
@@ -1938,6 +2534,8 @@ func (in *inliner) dropExpandedClosures(fd *ast.FuncDecl) {
 // have been cloned on demand.
 func normalizePackage(pk *pkgView, known map[string]bool) (int, []string) {
 	in := newInliner(pk, known)
+	in.seq = normSeq
+	defer func() { normSeq = in.seq }()
 	for _, f := range pk.Syntax {
 		// expression inlining first (any context), tracking lexical scopes
 		in.scopes = nil
@@ -1978,6 +2576,7 @@ func normalizePackage(pk *pkgView, known map[string]bool) (int, []string) {
 				in.curSig, _ = obj.Type().(*types.Signature)
 			}
 			in.scopes = nil
+			in.loops = nil
 			in.curDecl = fd
 			in.push(f)
 			in.push(fd.Type)
@@ -1987,21 +2586,21 @@ func normalizePackage(pk *pkgView, known map[string]bool) (int, []string) {
 			in.closures = nil
 		}
 	}
+	in.dropUnusedImports()
 	sort.Strings(in.log)
 	return in.count, in.log
 }
 
-
 // recheck type-checks a (transformed) package against the given import map.
 func recheck(path string, fset *token.FileSet, files []*ast.File, imp map[string]*types.Package, sizes types.Sizes) (*types.Package, *types.Info, error) {
 	info := &types.Info{
-		Types:      map[ast.Expr]types.TypeAndValue{},
-		Defs:       map[*ast.Ident]types.Object{},
-		Uses:       map[*ast.Ident]types.Object{},
-		Implicits:  map[ast.Node]types.Object{},
-		Instances:  map[*ast.Ident]types.Instance{},
-		Scopes:     map[ast.Node]*types.Scope{},
-		Selections: map[*ast.SelectorExpr]*types.Selection{},
+		Types:        map[ast.Expr]types.TypeAndValue{},
+		Defs:         map[*ast.Ident]types.Object{},
+		Uses:         map[*ast.Ident]types.Object{},
+		Implicits:    map[ast.Node]types.Object{},
+		Instances:    map[*ast.Ident]types.Instance{},
+		Scopes:       map[ast.Node]*types.Scope{},
+		Selections:   map[*ast.SelectorExpr]*types.Selection{},
 		FileVersions: map[*ast.File]string{},
 	}
 	var firstErr error
